@@ -32,6 +32,13 @@ PY = '/venv/bin/python'
 NCPU = os.cpu_count() or 4
 
 
+class TreeBroken(Exception):
+    """The tree under test fails a precondition of a check: a valid project
+    of the check's own does not configure or build at all, so the property
+    cannot even be exercised.  Reported as a violation (the change broke
+    what the property is about), not as a machinery failure."""
+
+
 class MachineryError(Exception):
     pass
 
@@ -127,9 +134,22 @@ def tla_set(items):
     return '{' + ', '.join(tla_str(x) for x in items) + '}'
 
 
-def tlc(module, cfg_text, *, workers=None, env=None, simulate=None,
-        depth=None, seed=None, coverage=False, timeout=3600, deque=False,
-        extra=(), defs=None):
+def tlc(module, cfg_text, **kw):
+    """TLC, retried once when the JVM itself died (killed, out of memory,
+    no summary line at all): on a heavily loaded machine that happens without
+    saying anything about the specification or the code."""
+    r = _tlc(module, cfg_text, **kw)
+    died = r.rc in (-9, 137, 134, 1) and 'states generated' not in r.out and \
+        'Error:' not in r.out
+    if died or 'OutOfMemoryError' in r.out:
+        time.sleep(5)
+        r = _tlc(module, cfg_text, **kw)
+    return r
+
+
+def _tlc(module, cfg_text, *, workers=None, env=None, simulate=None,
+         depth=None, seed=None, coverage=False, timeout=3600, deque=False,
+         extra=(), defs=None, heap=None):
     """Run TLC on /verif/spec/<module>.tla with the given cfg text.
     `defs`: TLA+ definitions (constants that a cfg file cannot express, e.g.
     strings containing backslashes or quotes, tuples); a wrapper module that
@@ -165,6 +185,8 @@ def tlc(module, cfg_text, *, workers=None, env=None, simulate=None,
         # (java.io.tmpdir: TLC leaves an empty tlc-<n> directory there per run)
         opts = ['-Xss64m', '-DTLA-Library=' + SPEC,
                 '-Djava.io.tmpdir=' + work, '-XX:ParallelGCThreads=%d' % max(2, min(8, int(workers or NCPU)))]
+        if heap:
+            opts.append('-Xmx' + heap)
         if deque:
             opts.append('-Dtlc2.tool.queue.IStateQueue=StateDeque')
         e['JAVA_TOOL_OPTIONS'] = ' '.join(opts)
@@ -236,6 +258,7 @@ def validate_traces(module, cfg_text, traces, chunk=20000, **kw):
     rejects = {}
     stats = {'distinct': 0, 'generated': 0, 'wall': 0.0}
     kw.setdefault('workers', 1)
+    kw.setdefault('heap', '4g')      # up to NCPU/2 of these run side by side
     jobs = kw.pop('jobs', max(1, NCPU // 2))
 
     def one(part):
